@@ -32,6 +32,12 @@ type exampleBuilder struct {
 	// each other have (2n)!/2^n of them.
 	shown map[internalSchema.Node]int
 
+	// tried counts, for each list of alternatives of the schema, how many times
+	// the example has gone through it in the order it is written in. A value
+	// which has to be there is not counted in shown: n types which refer to each
+	// other by `@next | @leaf` in such places have as many paths.
+	tried map[*internalSchema.MixedValueNode]int
+
 	// absorbers is the number of places on the way from the root to the node
 	// being built where a valid document may do without the value: optional
 	// properties, items of arrays which may be empty and alternatives which are
@@ -66,7 +72,8 @@ type exampleFailures struct {
 }
 
 // exampleRepeatLimit is how many times one example contains the same optional
-// property or the same array item of the schema. Far more than a readable
+// property or the same array item of the schema, and goes through the same list
+// of alternatives in the order it is written in. Far more than a readable
 // example needs; it bounds the number of them in an example by a multiple of
 // their number in the schema.
 const exampleRepeatLimit = 100
@@ -76,6 +83,7 @@ func newExampleBuilder(types map[string]internalSchema.Type) *exampleBuilder {
 		types:          types,
 		processedTypes: map[string]*int{},
 		shown:          map[internalSchema.Node]int{},
+		tried:          map[*internalSchema.MixedValueNode]int{},
 		failed:         map[string][]*exampleFailures{},
 	}
 }
@@ -339,6 +347,14 @@ func (b *exampleBuilder) buildExampleForMixedValueNode(node *internalSchema.Mixe
 		return nil, lexeme.NewLexEventError(node.BasisLexEventOfSchemaForNode(), errors.ErrLoader)
 	}
 
+	// An alternative which is followed by other ones is a place where a valid
+	// document may leave the type as well: beyond the repeat limit the last
+	// alternative goes first.
+	if !b.canTryInOrder(node) {
+		last := len(tt) - 1
+		tt = append([]string{tt[last]}, tt[:last]...)
+	}
+
 	// The first alternative which has an example is used: an alternative that
 	// only leads back into a type being processed (`@node | @leaf` inside @node)
 	// has none, the next one may terminate the recursion.
@@ -360,6 +376,23 @@ func (b *exampleBuilder) buildExampleForMixedValueNode(node *internalSchema.Mixe
 		}
 	}
 	return nil, nil
+}
+
+// canTryInOrder reports whether the example may go through the list of
+// alternatives in the order it is written in once more, see canShow. A list of
+// one type has no other order, a built-in type at its head refers to nothing:
+// always in order.
+func (b *exampleBuilder) canTryInOrder(node *internalSchema.MixedValueNode) bool {
+	tt := node.GetTypes()
+	if len(tt) < 2 || !bytes.Bytes(tt[0]).IsUserTypeName() {
+		return true
+	}
+	if b.tried[node] >= exampleRepeatLimit {
+		return false
+	}
+	b.tried[node]++
+	b.spent++
+	return true
 }
 
 func (b *exampleBuilder) buildExampleForUserType(typeName string) ([]byte, error) {
